@@ -16,8 +16,18 @@ Fixpoint tables_in (f : feature) : list nat :=
   | FAgg _ a => tables_in a
   end.
 
+(* statements without references: no FElem anywhere in a feature *)
+Fixpoint elem_free (f : feature) : bool :=
+  match f with
+  | FCol _ _ _ | FLit _ => true
+  | FElem _ _ _ => false
+  | FAlias g _ | FNot g | FAgg _ g => elem_free g
+  | FBin _ a b => elem_free a && elem_free b
+  end.
+
+(* Predicate.Factors.primitive: all fields - elements of references included - belong to one table *)
 Definition single_table (f : feature) : option nat :=
-  match nodup Nat.eq_dec (tables_in f) with [t] => Some t | _ => None end.
+  if elem_free f then match nodup Nat.eq_dec (tables_in f) with [t] => Some t | _ => None end else None.
 
 Definition factors_t := list (nat * feature).
 Fixpoint fac_get (t : nat) (l : factors_t) : option feature :=
@@ -116,15 +126,6 @@ Definition check_case (c : case) : bool :=
          | (_ :: _) as fs, Some bs => bools_eqb (map (admits fs t) rows) bs
          | _, _ => false
          end
-  end.
-
-(* statements without references: no FElem anywhere in a feature *)
-Fixpoint elem_free (f : feature) : bool :=
-  match f with
-  | FCol _ _ _ | FLit _ => true
-  | FElem _ _ _ => false
-  | FAlias g _ | FNot g | FAgg _ g => elem_free g
-  | FBin _ a b => elem_free a && elem_free b
   end.
 
 (* the clauses every contributing row combination of an inner-join query satisfies *)
